@@ -129,13 +129,17 @@ func (m *Model) pop() {
 func (m *Model) top() *frame { return m.frames[len(m.frames)-1] }
 
 func (m *Model) lookup(name string) *Slot {
+	own := true // still inside the innermost call (its match frames included)
 	for i := len(m.frames) - 1; i >= 0; i-- {
 		if s, ok := m.frames[i].vars[name]; ok {
-			if i != 0 && i != len(m.frames)-1 {
+			if i != 0 && !own {
 				// found in a caller's frame: dynamic scoping is [P]
 				m.tag("pinned:dynamic-scope")
 			}
 			return s
+		}
+		if m.frames[i].kind == "call" {
+			own = false
 		}
 	}
 	if strings.HasPrefix(name, "$") {
